@@ -282,7 +282,17 @@ def c06_5(ctx):
         for p in paths(fn.body, bound=4096):
             if p.term != 'return':
                 continue
-            if any(isinstance(c, ast.AST) and pol and N(c) == NS('len(functions) + len(filters) == 0') for c, pol in p.conds):
+            # "no condition at all": the sum of the two lengths is 0, or each of *functions (a tuple) and **filters (a dict) is empty, however spelled
+            def _empty(name, p=p):
+                for text, pol, e in p.atoms():
+                    from ..au import _atom_key
+                    k, positive = _atom_key(e, N)
+                    if k == 'nonempty(%s)' % name and (pol == positive) is False:
+                        return True
+                    if isinstance(e, ast.Name) and e.id == name and name in (fn.node.args.vararg.arg if fn.node.args.vararg else None, fn.node.args.kwarg.arg if fn.node.args.kwarg else None) and not pol:
+                        return True
+                return False
+            if any(isinstance(c, ast.AST) and pol and N(c) == NS('len(functions) + len(filters) == 0') for c, pol in p.conds) or (_empty('functions') and _empty('filters')):
                 hit += 1
                 ctx.count(1, fn.where(p.node))
                 v = p.value
